@@ -39,6 +39,17 @@ package txt
 //@ ensures implies(len(rawLineText) >= 2 && rawLineText[len(rawLineText)-2] == 13 && rawLineText[len(rawLineText)-1] == 10, len(result.LineEnding) == 2)
 
 
+// indentOf(l): the indentation sequence the line starts with ("" if none). The symbol is uninterpreted;
+// (*Line).Indentation gives it its meaning (`defines`) and is verified against the bytes of the line: the first of
+// four spaces, three spaces, two spaces, one tab that the original line (text plus line ending) starts with.
+//@ spec indentOf(l Line) string
+//@ spec org(l Line, k int) int = ite(k < len(l.Text), l.Text[k], l.LineEnding[k - len(l.Text)])
+//@ spec sp(l Line, n int) bool = len(l.Text) + len(l.LineEnding) >= n && forall(k, 0, n, org(l, k) == 32)
+//@ func (*Line).Indentation
+//@ defines result == indentOf(*l)
+//@ ensures result == ite(sp(*l, 4), "    ", ite(sp(*l, 3), "   ", ite(sp(*l, 2), "  ", ite(len(l.Text) + len(l.LineEnding) >= 1 && org(*l, 0) == 9, "\t", ""))))
+//@ loop 1 invariant implies(rangeindex >= 0, !sp(*l, 4)) && implies(rangeindex >= 1, !sp(*l, 3)) && implies(rangeindex >= 2, !sp(*l, 2)) && implies(rangeindex >= 3, !(len(l.Text) + len(l.LineEnding) >= 1 && org(*l, 0) == 9))
+
 //@ func SubRune
 //@ requires start >= 0 && length >= 0
 //@ ensures implies(start >= len(text), isnil(result))
